@@ -43,7 +43,8 @@ def rand_vals(rng, n):
         vals = [rng.randint(-8, 8) for _ in range(n)]
     # NaN holes
     if rng.random() < 0.3:
-        vals = [None if rng.random() < 0.15 else v for v in vals]
+        keep = rng.randrange(n)          # all-NaN input is rejected by compute (malformed stream)
+        vals = [None if (rng.random() < 0.15 and i != keep) else v for i, v in enumerate(vals)]
     return vals
 
 
@@ -117,7 +118,23 @@ def rand_case(rng, maxpix=36, dtype=None, allow_user=True, adj=None, scale=None)
     case['scale'] = scale if scale is not None else rng.choice([0, 0, 0, 1, 3])
     case['dtype'] = dtype or 'float64'
     case['adj'] = adj or rand_adj(rng, shape)
+    if dtype is None and case['scale'] == 0 and all(v is not None for v in case['vals']) and rng.random() < 0.35:
+        # integer / narrow dtypes, with the data minimum on the dtype's lower bound half of the time
+        dt = rng.choice(['int8', 'int16', 'int32', 'int64', 'uint8', 'uint16', 'uint32', 'float32'])
+        lo = {'int8': -128, 'int16': -32768, 'int32': -2 ** 31, 'int64': -2 ** 63, 'uint8': 0, 'uint16': 0, 'uint32': 0,
+              'float32': None}[dt]
+        mn = min(case['vals'])
+        if lo is not None and (rng.random() < 0.5 or (lo == 0 and mn < 0)):
+            case['vals'] = [v - mn + lo for v in case['vals']]
+        if dt == 'int8' and max(case['vals']) > 127:
+            dt = 'int16'
+        case['dtype'] = dt
     rand_params(rng, case, allow_user)
+    if case['dtype'] not in ('float64', 'float32') and case.get('minv') is not None and abs(case['minv']) < 2 ** 40 and rng.random() < 0.4:
+        case['minv_frac'] = True
+    if case['dtype'] in ('int32', 'int64', 'uint32') and case.get('crit'):
+        # sums of values near the bounds of wide integer types overflow in np.nansum: out of scope
+        case['crit'] = [c for c in case['crit'] if c[0] != 'sum']
     if case['adj'][0] == 'grid' and sum(case['adj'][1]) == 1 and rng.random() < 0.5:
         case['per_scalar'] = True
     return case
